@@ -44,6 +44,10 @@ impl Rng {
     }
 }
 
+pub fn clip(s: &str) -> String {
+    if s.len() > 400 { format!("{}…", &s[..400]) } else { s.to_string() }
+}
+
 pub fn hex(b: &[u8]) -> String {
     if b.is_empty() {
         return "-".to_string();
@@ -211,6 +215,24 @@ impl Report {
     }
 }
 
+pub struct Exec {
+    pub imp: String,
+    pub oracle_fail: Option<String>,
+    pub known_key: String,
+    pub nontrivial: bool,
+    /// extra distribution tags
+    pub tags: Vec<String>,
+}
+impl Exec {
+    pub fn new(imp: String) -> Exec {
+        Exec { imp, oracle_fail: None, known_key: String::new(), nontrivial: true, tags: vec![] }
+    }
+    pub fn fail(mut self, f: Option<String>) -> Exec {
+        if self.oracle_fail.is_none() { self.oracle_fail = f; }
+        self
+    }
+}
+
 pub struct Ctx {
     pub tier_thorough: bool,
     pub seed: u64,
@@ -237,6 +259,11 @@ pub fn compare_batch(ctx: &mut Ctx, rep: &mut Report, batch: &mut Vec<(String, S
     let answers = ctx.model.ask(&lines);
     for ((line, imp, nt), m) in batch.iter().zip(answers.iter()) {
         rep.case(line, imp, m, *nt);
+        // for `spec.*` ops the model's answer is the independent reference: a difference is a
+        // failure of the property oracle, not only a correspondence break
+        if line.starts_with("spec.") && imp != m {
+            rep.oracle_fail("", line, &format!("implementation differs from the independent RFC reference: impl={} reference={}", clip(imp), clip(m)));
+        }
     }
     batch.clear();
 }
